@@ -84,3 +84,53 @@ Definition spec (c : case) : bool :=
   | Ok s => spec_ok (c_script c) s (c_view c) (c_names c) (c_nobs c) (c_rows c)
   | Err _ => true
   end.
+
+(** * Adjusted judgements (attribution only): the specification with one known
+    finding's expectation substituted *)
+(** F-C10a / F-C10b, names view: every token of the case resolves by lookup,
+    is not accepted, runs nothing, has no help *)
+Definition adj_names (c : case) : bool :=
+  match c_view c with
+  | O => all2 (fun (n : string) (o : nobs) =>
+                 negb (String.eqb n "") && resolves o && negb (accepted o) &&
+                 match o_ran o with Ok None => true | _ => false end &&
+                 match o_help o with Ok None => true | _ => false end)
+              (c_names c) (c_nobs c)
+  | _ => false
+  end.
+
+(** bindings as the listing code sees them: [fb] only the aliases the task
+    itself declares (F-C10b); [fc] own names of tasks and collections instead
+    of the names they are bound by (F-C10c, json) *)
+Fixpoint bindings_adj (fb fc : bool) (c : coll) (path : list string) {struct c} : list (entry * bool) :=
+  match c with
+  | Coll _ tasks aliases subs dflt ad _ =>
+      map (fun kt =>
+             ((path, (if fc then transform ad (t_name (snd kt)) else fst kt), t_id (snd kt),
+               if fc then map (transform ad) (t_aliases (snd kt))
+               else map fst (filter (fun a => String.eqb (snd a) (fst kt) &&
+                                              (negb fb || mem (fst a) (map (transform ad) (t_aliases (snd kt)))))
+                                    aliases)),
+              opt_str_eqb dflt (Some (fst kt))))
+          tasks ++
+      (fix go (l : list (string * coll)) : list (entry * bool) :=
+         match l with
+         | [] => []
+         | (k, sc) :: l' =>
+             bindings_adj fb fc sc (path ++ [if fc then ostr (c_name sc) else k]) ++ go l'
+         end) subs
+  end.
+
+(** [fd]: spellings are not judged (F-C10d) *)
+Definition adj_list (fb fc fd : bool) (c : case) : bool :=
+  match c_state c, c_view c with
+  | Ok s, S _ =>
+      let bs := bindings_adj fb fc s [] in
+      listing_gen (negb fc) (flat_of bs) (map fst bs) (negb (fd || fc)) (c_auto_dash s) (c_view c) (c_rows c)
+  | _, _ => false
+  end.
+
+Definition adj_list_b (c : case) : bool := adj_list true false false c.
+Definition adj_list_c (c : case) : bool := adj_list false true false c.
+Definition adj_list_d (c : case) : bool := adj_list false false true c.
+Definition adj_list_all (c : case) : bool := adj_list true (Nat.eqb (c_view c) 3) true c.
